@@ -19,4 +19,12 @@ pub mod warmup;
 pub mod c18;
 pub mod c19;
 pub mod bytesearch;
+pub mod substr;
+pub mod iters;
+pub mod lanes;
+pub mod dispatch;
+pub mod memmem_h;
+pub mod c17;
+pub mod pseudo;
+#[cfg(vcfg_x86std)]
 pub mod exp;
